@@ -758,11 +758,15 @@ fn decompress_udp(
         &iphc_repr.dst_addr,
         &ChecksumCapabilities::ignored(),
     )?;
-    if udp_repr.header_len() + payload.len() > buffer.len() {
+    // The decompressed UDP header (8 octets, not the compressed one) and the payload must fit.
+    if udp_repr.0.header_len() + payload.len() > buffer.len() {
         return Err(Error);
     }
     let udp_payload_len = if let Some(total_len) = total_len {
-        total_len - *payload_len - 8
+        // The datagram size announced by the fragment header must cover the headers.
+        total_len
+            .checked_sub(*payload_len + udp_repr.0.header_len())
+            .ok_or(Error)?
     } else {
         payload.len()
     };
